@@ -4052,17 +4052,18 @@ impl<'a> Parser<'a> {
                 self.advance();
                 // Parse as function type, the 'new' prefix just marks it as a constructor
                 // For our runtime purposes, we just parse and discard the type annotation
-                let func_type = self.try_parse_function_type()?;
-                Ok(func_type)
+                match self.try_parse_function_type()? {
+                    Some(func_type) => Ok(func_type),
+                    None => Err(self.unexpected_token("constructor type")),
+                }
             }
 
             // Parenthesized type or function type expression
             TokenKind::LParen => {
                 // Try to parse as function type expression: (a: T, b: T) => R
-                if let Ok(func_type) = self.try_parse_function_type() {
+                if let Some(func_type) = self.try_parse_function_type()? {
                     return Ok(func_type);
                 }
-                self.speculation_failed()?;
                 // Fall back to parenthesized type
                 self.advance();
                 let inner_ty = self.parse_type_annotation()?;
@@ -4183,8 +4184,11 @@ impl<'a> Parser<'a> {
     }
 
     /// Try to parse a function type expression: (a: T, b: T) => R
-    /// Returns Err if this doesn't look like a function type.
-    fn try_parse_function_type(&mut self) -> Result<TypeAnnotation, JsError> {
+    /// Returns Ok(None), with the position restored, if this doesn't look like a function
+    /// type. Once `=>` has been seen it is one, and an error in the return type is final
+    /// (falling back to a parenthesized type from there would re-parse the rest of the
+    /// input from the middle, once more per nesting level).
+    fn try_parse_function_type(&mut self) -> Result<Option<TypeAnnotation>, JsError> {
         let start = self.current.span;
 
         // Save state for potential rollback
@@ -4201,7 +4205,7 @@ impl<'a> Parser<'a> {
                 self.lexer.restore(lexer_checkpoint);
                 self.current = saved_current;
                 self.previous = saved_previous;
-                return Err(JsError::syntax_error_simple("Not a function type"));
+                return Ok(None);
             }
         };
 
@@ -4211,18 +4215,18 @@ impl<'a> Parser<'a> {
             self.lexer.restore(lexer_checkpoint);
             self.current = saved_current;
             self.previous = saved_previous;
-            return Err(JsError::syntax_error_simple("Not a function type"));
+            return Ok(None);
         }
 
         // Parse return type
         let return_type = Box::new(self.parse_type_annotation()?);
 
-        Ok(TypeAnnotation::Function(FunctionType {
+        Ok(Some(TypeAnnotation::Function(FunctionType {
             params,
             return_type,
             type_parameters: None,
             span: self.span_from(start),
-        }))
+        })))
     }
 
     /// Parse function type parameters: (a: T, b?: T, ...rest: T[])
